@@ -116,9 +116,10 @@ class Report:
       lines.append(f"KNOWN-FINDING: property={pid} {open_keys[k]['what']}")
     seen = set()
     for v in new_viol:
-      if v['key'] in seen:
+      if v['key'] in seen or v['replay'] in seen:
         continue
       seen.add(v['key'])
+      seen.add(v['replay'])
       lines.append(f"VIOLATION property={pid} replay={v['replay']}")
       print(f"  violation detail: {v.get('what', '')} key={v['key']}", file=sys.stderr)
     stale = [k for k in open_keys if k not in known_hit]
